@@ -733,6 +733,15 @@ def run(ck):
 
     ck.extra["trained_receivers"] = _trained_object(ck, repo, rule="C03.f")
     ck.extra["width_checked_classes"] = check_g(ck, repo)
+    from .sem import share_clauses
+
+    share_clauses(ck, "c01", {
+        "C01.g": ("C03.h", "state derived from a hyper-parameter is recomputed when set_params replaces it: a later fit does not answer with an object set up for the previous parameters"),
+        "C01.i": ("C03.j", "constructor defaults are not objects shared by every default-built instance: fitting one instance does not change another"),
+    })
+    share_clauses(ck, "c02", {
+        "C02.b": ("C03.i", "fit does not write into the hyper-parameters or into the objects they hold: a refit starts from the same parameters as a fresh clone"),
+    })
     ck.extra["rng_constructor_sites"] = na
     ck.extra["fit_methods_analysed"] = nf
     ck.extra["exemptions"] = {"C03.a": {f"{k[0]}/{k[1]}": v for k, v in A_EXEMPT.items()}, "C03.c": {f"{k[0]}.{k[1]}": v for k, v in C_EXEMPT.items()}}
